@@ -66,7 +66,7 @@ def build_all(need_props=(), allow_default=True) -> BuildResult:
             if allow_default:
                 # fall back, per untranslatable section, to the model parameters of the last
                 # recognised source so the correspondence lanes can still say whether behaviour changed
-                files = {"dispatch": "DispatchSrc.v", "converters": "ConvSrc.v", "gen": "GenSrc.v", "unions": "UnionsSrc.v", "disambig": "DisSrc.v", "threads": "ThreadSrc.v", "alias": "AliasSrc.v", "hooks": "HooksSrc.v", "subclasses": "SubSrc.v", "unionstruct": "UStructSrc.v"}
+                files = {"dispatch": "DispatchSrc.v", "converters": "ConvSrc.v", "gen": "GenSrc.v", "unions": "UnionsSrc.v", "disambig": "DisSrc.v", "threads": "ThreadSrc.v", "alias": "AliasSrc.v", "hooks": "HooksSrc.v", "subclasses": "SubSrc.v", "unionstruct": "UStructSrc.v", "latebinding": "LateSrc.v"}
                 default = json.loads((COQ / "GenDefault" / "t1_summary.json").read_text())
                 for sec, fname in files.items():
                     if not summ.get("sections", {}).get(sec, False):
